@@ -9,7 +9,9 @@ TNext ==
     /\ l' = l + 1
     /\ LET e == Tr[l] IN
        \/ e.k = "reset" /\ ResetTo(e.prog)
-       \/ (e.k \in Skip \/ (e.t = 0 /\ e.k # "reset")) /\ UNCHANGED vars     \* the driver's construction / inspection / destruction
+       \* a bookkeeping step after a release-type operation is a step of the model where code follows that release
+       \/ e.k = "pu" /\ e.t \in Threads /\ th[e.t].pc = "e6p" /\ Next /\ Matches(ev', e)
+       \/ (e.k \in Skip \/ (e.t = 0 /\ e.k # "reset")) /\ ~(e.k = "pu" /\ e.t \in Threads /\ th[e.t].pc = "e6p") /\ UNCHANGED vars     \* the driver's construction / inspection / destruction
        \/ e.k \in EndKinds /\ e.t # 0 /\ UNCHANGED vars
        \/ e.t # 0 /\ e.k \notin (Skip \cup EndKinds \cup {"reset"}) /\ Next /\ Matches(ev', e)
     /\ Mark(l)
